@@ -59,6 +59,13 @@ func (x *Explorer) enter(fr *frame, from, b *ssa.BasicBlock) {
 	if lm != nil {
 		if x.Opts.Unroll == 0 || n >= 1 {
 			general = true
+			if x.Opts.PairIter && ((x.Opts.Unroll == 0 && n == 1) || (x.Opts.Unroll >= 1 && n == 2)) {
+				// the iteration following a general one is executed precisely: paths
+				// contain every pair of consecutive iterations from an arbitrary state
+				general = false
+			}
+		}
+		if general {
 			x.havocLoop(lm)
 		}
 	}
@@ -625,6 +632,7 @@ func stepOf(e ssa.Value, phi *ssa.Phi, depth int, seen map[ssa.Value]bool) (lo, 
 		return 0, 0, false
 	}
 	seen[e] = true
+	defer delete(seen, e) // on-stack marking only: shared sub-values of a DAG are fine, cycles are not
 	switch v := e.(type) {
 	case *ssa.BinOp:
 		if v.Op != token.ADD && v.Op != token.SUB {
